@@ -1235,6 +1235,8 @@ class _Ctx:
         for x in args:
             if is_t(x, "star") and is_t(x[1], "call") and x[1][1] in (G("itertools.chain"), G("chain")) and not x[1][3]:
                 flat_.extend(("star", y) for y in x[1][2])
+            elif is_t(x, "star") and (is_t(x[1], "tuple") or is_t(x[1], "list")):
+                flat_.extend(x[1][1])  # f(*(a, *b)) is f(a, *b)
             else:
                 flat_.append(x)
         args = flat_
@@ -1541,7 +1543,7 @@ class _Ctx:
             cis = ev.prog.class_index.get(short)
             if cis:
                 ci = cis[0]
-                if name in ci.methods and ((short, name) in _INLINE_STATIC or (name not in ev.opaque_methods and _thin_forwarder(ci.methods[name], short)) or (
+                if name in ci.methods and not (short == "Diff" and name in _TREE_TAGS) and ((short, name) in _INLINE_STATIC or (name not in ev.opaque_methods and _thin_forwarder(ci.methods[name], short)) or (
                         name.startswith("_") and not name.startswith("__") and name not in ev.opaque_methods and _is_static(ci.methods[name])
                         and (_pure_wiring(ci.methods[name]) or (ev.inline_private_static and not _is_opaque_fn(ci.methods[name]) and not _numeric_kernel(ci.methods[name]))))):
                     fn = ci.methods[name]
